@@ -216,9 +216,12 @@ func c01Case(c *core.Case) {
 	}
 	c.SetInput(canon + "\nSCOPE: " + scopeStr(sc))
 	decided := false
+	firsts := make([]c01Outcome, len(scopes))
+	looses := make([]bool, len(scopes))
 	for si, s := range scopes {
 		ctx := evalCtx(s)
 		ref := ev.Eval(ast, toRefScope(s))
+		looses[si] = ref.LooseSeq
 		c.Count("ref:" + []string{"value", "error", "unspecified", "error-or-value"}[ref.Status])
 		if ref.Status == refeval.Unspecified {
 			c.Count("unspecified:" + trunc(ref.Why, 60))
@@ -239,6 +242,7 @@ func c01Case(c *core.Case) {
 			}
 			if li == 0 {
 				first = o
+				firsts[si] = o
 				if rule, msg := judgeRef(o, ref); rule != "" {
 					small := gen.Shrink(ast, func(n *gen.Node) bool {
 						s2 := gen.RenderExpr(n, &gen.Layout{})
@@ -262,6 +266,22 @@ func c01Case(c *core.Case) {
 			}
 			c.Count("layouts-agreed")
 		}
+	}
+	// one parsed expression evaluated repeatedly (scope 0, scope 1, scope 0
+	// again): an evaluation leaves nothing behind in the syntax tree, so each
+	// result equals that of a freshly parsed expression in the same scope
+	if he, pd := hclsyntax.ParseExpression([]byte(canon), "p.hcl", hcl.InitialPos); !pd.HasErrors() {
+		for step, si := range []int{0, 1, 0} {
+			v, d := he.Value(evalCtx(scopes[si]))
+			c.Evals(1)
+			o := c01Outcome{errs: d.HasErrors(), val: v, diags: diagStr(d)}
+			if o.key(looses[si]) != firsts[si].key(looses[si]) {
+				c.SetInput(canon + "\nSCOPE 0: " + scopeStr(scopes[0]) + "\nSCOPE 1: " + scopeStr(scopes[1]))
+				c.Violation("re-evaluation-differs/"+ast.Shape(), fmt.Sprintf("%s parsed once and evaluated in scope 0, scope 1, scope 0: evaluation %d (scope %d) gives %s (%s), a freshly parsed expression gives %s in that scope", trunc(canon, 300), step+1, si, trunc(o.key(false), 300), trunc(o.diags, 200), trunc(firsts[si].key(false), 300)), nil)
+				return
+			}
+		}
+		c.Count("re-evaluations-agreed")
 	}
 	if decided && ast.Depth() >= 2 {
 		c.NonTrivial(canon + scopeStr(sc))
